@@ -110,4 +110,25 @@ theorem emit_eq_translated (q : Query) (stopAfter : Option Nat) (st : Pipe) (d :
         simp [h1, h1', h2, h3, h4, id_pure]
       · simp [h1, h1', h2, h3, id_pure]
 
+/-- the names of the operator constants of the query package the comparison operators of the model stand for -/
+def opName : CmpOp → String
+  | .eq => "EqOp" | .lt => "LtOp" | .le => "LtEqOp" | .gt => "GtOp" | .ge => "GtEqOp"
+
+theorem isNilLit_lit (v : Value) : Operand.isNilLit (.lit v) = v.isNull := by
+  cases v <;> rfl
+
+/-- `unaryCriteriaToRange` (visit.go) as the current source writes it is the model's `toRange`: no range for a field
+    reference or a `$`-string, none for a nil bound unless the operator is equality, and the five ranges -/
+theorem unaryCriteriaToRange_eq (op : CmpOp) (f : Bytes) (x : Operand) :
+    (unaryCriteriaToRange ⟨opName op, f, x⟩).map toModel = toRange op x := by
+  cases x with
+  | ref n => simp [unaryCriteriaToRange, toRange, Operand.isRef, Id.run, id_pure]
+  | lit v =>
+    simp only [unaryCriteriaToRange, toRange, Id.run, isNilLit_lit, Operand.val]
+    by_cases hr : (Operand.lit v).isRef = true
+    · simp [hr, id_pure]
+    · by_cases hn : v.isNull = true
+      · cases op <;> simp [hr, hn, opName, id_pure, toModel]
+      · cases op <;> simp [hr, hn, opName, id_pure, toModel]
+
 end CV.Translated
